@@ -44,6 +44,54 @@ Qed.
 Lemma forallb_ext' {A} (f g : A -> bool) l : (forall x, f x = g x) -> forallb f l = forallb g l.
 Proof. intros H. induction l as [|x t IH]; [reflexivity|]. cbn. rewrite H, IH. reflexivity. Qed.
 
+(** * The Sustain check: groups of [su] equal cells *)
+Lemma ocell_eqb_cell a b : ocell_eqb a b = cell_eqb a b.
+Proof. destruct a, b; reflexivity. Qed.
+
+Lemma cell_eqb_sym a b : cell_eqb a b = cell_eqb b a.
+Proof. destruct a, b; cbn; try reflexivity. apply Nat.eqb_sym. Qed.
+
+Lemma cell_eqb_eq a b : cell_eqb a b = true <-> a = b.
+Proof.
+  destruct a, b; cbn; split; intros H; try discriminate; try reflexivity.
+  - apply Nat.eqb_eq in H. subst. reflexivity.
+  - inversion H. apply Nat.eqb_refl.
+Qed.
+
+Lemma chk_spec (levels : list (option nat)) i x js : (forall j, In j js -> i + j < length levels) ->
+  (fix chk (js : list nat) : rres bool :=
+     match js with
+     | [] => ROk true
+     | j :: t' => y <-- of_opt IndexError (nth_error levels (i + j)) ;;; if ocell_eqb y x then chk t' else ROk false
+     end) js = ROk (forallb (fun j => ocell_eqb (nth (i + j) levels None) x) js).
+Proof.
+  induction js as [|j t IH]; intros H; [reflexivity|].
+  rewrite (nth_error_nth' levels None (H j (or_introl eq_refl))). cbn [of_opt rbind forallb].
+  destruct (ocell_eqb (nth (i + j) levels None) x); [|reflexivity]. cbn [andb]. apply IH. intros j' Hj'. apply H. right. exact Hj'.
+Qed.
+
+Lemma sustain_groups (levels : list (option nat)) su G : 0 < su ->
+  forallb (fun g => forallb (fun j => ocell_eqb (nth (g * su + j) levels None) (nth (g * su) levels None)) (seq 1 (su - 1))) (seq 0 G)
+  = forallb (fun t => cell_eqb (nth (t / su * su) levels None) (nth t levels None)) (seq 0 (G * su)).
+Proof.
+  intros Hsu. apply Bool.eq_iff_eq_true. rewrite !forallb_forall. split.
+  - intros H t Ht. apply in_seq in Ht.
+    pose proof (Nat.div_mod_eq t su) as Hdm. pose proof (Nat.mod_upper_bound t su ltac:(lia)) as Hm.
+    assert (Hg : t / su < G).
+    { apply Nat.div_lt_upper_bound; [lia|]. rewrite Nat.mul_comm. lia. }
+    specialize (H (t / su) ltac:(apply in_seq; lia)). rewrite forallb_forall in H.
+    destruct (t mod su) as [|j'] eqn:Ej.
+    + replace (t / su * su) with t by lia. destruct (nth t levels None); cbn; [apply Nat.eqb_refl | reflexivity].
+    + specialize (H (S j') ltac:(apply in_seq; lia)). rewrite ocell_eqb_cell, cell_eqb_sym in H.
+      replace (t / su * su + S j') with t in H by lia. exact H.
+  - intros H g Hg. apply in_seq in Hg. apply forallb_forall. intros j Hj. apply in_seq in Hj.
+    assert (Ht : g * su + j < G * su) by nia.
+    specialize (H (g * su + j) ltac:(apply in_seq; lia)).
+    assert (Ediv : (g * su + j) / su = g).
+    { rewrite Nat.add_comm, Nat.div_add by lia. rewrite Nat.div_small by lia. reflexivity. }
+    rewrite Ediv in H. rewrite ocell_eqb_cell, cell_eqb_sym. exact H.
+Qed.
+
 Section F1C.
 Variable fb : flat.
 Hypothesis HF : frag2 fb = true.
@@ -158,13 +206,13 @@ Proof.
   rewrite (wf_nth f row Hf Hr). reflexivity.
 Qed.
 
-Lemma f1_sequential f : In f (fl_act fb) -> 0 < nlevels fb f ->
+Lemma f1_sequential f : In f (fl_act fb) -> 0 < nlevels fb f -> sustain_of fb f = 1 ->
   constraint_conforms fb r (FSequential f) =
   ROk (constraint_ok S0 s (CodeSem.mk_c (KSequential (CodeSem.pre_of fb f) (sustain_of fb f)) f 0 [])).
 Proof.
-  intros Ha Hnl. pose proof (act_lt fb HF f Ha) as Hf. destruct (Hwf f Ha) as [row [Hr Hlen]].
+  intros Ha Hnl Hs1. pose proof (act_lt fb HF f Ha) as Hf. destruct (Hwf f Ha) as [row [Hr Hlen]].
   cbn [constraint_conforms]. rewrite f1_factor_preamble. cbn [rbind]. unfold row_of. rewrite Hr. cbn [of_opt rbind].
-  rewrite f1_pre_of. unfold sustain. rewrite (f0_sustain_of fb HF). cbn [Z.to_nat].
+  rewrite f1_pre_of. unfold sustain. rewrite Hs1. cbn [Z.to_nat].
   unfold constraint_ok, CodeSem.mk_c. cbn [k_kind k_factor k_level k_windows].
   rewrite (wf_nth f row Hf Hr).
   assert (Hfd : exists fd, nth_error (s_factors S0) f = Some fd /\ f_nlevels fd = nlevels fb f).
@@ -200,11 +248,83 @@ Proof.
   rewrite <- MismatchProofs.existsb_count_level. reflexivity.
 Qed.
 
+(** the Sustain check decides that the sustained factors keep their levels *)
+Lemma grp_spec f su (levels : list (option nat)) G : 0 < su -> length levels = G * su ->
+  (forall t, applies_to_trial fb f t = true) ->
+  forall cnt g i0, i0 = g * su -> G - g < cnt -> g <= G ->
+  (fix grp (cnt : nat) (i : nat) : rres bool :=
+     match cnt with
+     | O => ROk true
+     | S c' =>
+       if i <? length levels then
+         if applies_to_trial fb f (i / su + 1) then
+           x <-- of_opt IndexError (nth_error levels i) ;;;
+           same <-- (fix chk (js : list nat) : rres bool :=
+                       match js with
+                       | [] => ROk true
+                       | j :: t' => y <-- of_opt IndexError (nth_error levels (i + j)) ;;;
+                                    if ocell_eqb y x then chk t' else ROk false
+                       end) (seq 1 (su - 1)) ;;;
+           if same then grp c' (i + su) else ROk false
+         else grp c' (i + su)
+       else ROk true
+     end) cnt i0 =
+  ROk (forallb (fun g' => forallb (fun j => ocell_eqb (nth (g' * su + j) levels None) (nth (g' * su) levels None)) (seq 1 (su - 1)))
+               (seq g (G - g))).
+Proof.
+  intros Hsu Hlen Happ. induction cnt as [|cnt IH]; intros g i0 -> Hc Hg; [lia|].
+  destruct (g * su <? length levels) eqn:E.
+  - apply Nat.ltb_lt in E. rewrite Hlen in E. assert (HgG : g < G) by nia.
+    rewrite Happ. rewrite (nth_error_nth' levels None) by (rewrite Hlen; exact E). cbn [of_opt rbind].
+    rewrite (chk_spec levels (g * su) (nth (g * su) levels None) (seq 1 (su - 1)))
+      by (intros j Hj; apply in_seq in Hj; rewrite Hlen; nia).
+    cbn [rbind]. replace (G - g) with (S (G - S g)) by lia. cbn [seq forallb].
+    destruct (forallb (fun j => ocell_eqb (nth (g * su + j) levels None) (nth (g * su) levels None)) (seq 1 (su - 1))); [|reflexivity].
+    cbn [andb]. apply (IH (S g)); lia.
+  - apply Nat.ltb_ge in E. rewrite Hlen in E. assert (g = G) by nia. subst g. rewrite Nat.sub_diag. reflexivity.
+Qed.
+
+Lemma f1_applies_basic f : is_derived fb f = false -> forall t, applies_to_trial fb f t = true.
+Proof.
+  intros Hd t. unfold applies_to_trial. unfold is_derived in Hd. destruct (factor_at fb f) as [fd|]; [|reflexivity].
+  destruct (ff_window fd); [discriminate | reflexivity].
+Qed.
+
+Lemma f1_sustain : constraint_conforms fb r FSustain = ROk (sustain_held fb s).
+Proof.
+  cbn [constraint_conforms]. unfold sustain_held.
+  induction (seq 0 n) as [|f t IH]; [reflexivity|]. cbn [forallb]. unfold sustain.
+  destruct (1 <? sustain_of fb f) eqn:E1.
+  - apply Nat.ltb_lt in E1.
+    destruct (f0_sustain_cases fb HF f) as [E | (ci & su & Hin & Hfc & Esu)]; [lia|].
+    assert (Ha : In f (fl_act fb)) by (apply (f0_cact fb (f0_unpack fb HF) ci f); [eapply in_combine_l; exact Hin | exact Hfc]).
+    assert (Hnd : is_derived fb f = false).
+    { destruct (is_derived fb f) eqn:Ed; [|reflexivity]. rewrite (f0_sustain_derived fb HF f Ha Ed) in E1. lia. }
+    destruct (Hwf f Ha) as [row [Hr Hlen]]. unfold row_of. rewrite Hr. cbn [of_opt rbind].
+    pose proof (f0_sustain_div fb HF f) as Hdiv. apply Nat.mod_divides in Hdiv; [|lia]. destruct Hdiv as [G HG].
+    rewrite Nat.mul_comm in HG.
+    rewrite (grp_spec f (sustain_of fb f) row G ltac:(lia) ltac:(lia) (f1_applies_basic f Hnd) (S (length row)) 0 0 eq_refl)
+      by (try lia; rewrite Hlen, HG; nia).
+    cbn [rbind]. rewrite Nat.sub_0_r. rewrite (sustain_groups row (sustain_of fb f) G ltac:(lia)).
+    assert (Eh : forallb (fun t0 => cell_eqb (nth (t0 / sustain_of fb f * sustain_of fb f) row None) (nth t0 row None)) (seq 0 (G * sustain_of fb f))
+                 = held fb s f).
+    { unfold held, get_cell. rewrite (wf_nth f row (act_lt fb HF f Ha) Hr). rewrite <- HG. reflexivity. }
+    rewrite Eh. destruct (held fb s f); [cbn [andb]; exact IH | reflexivity].
+  - cbn [andb]. exact IH.
+Qed.
+
+(** what a constraint of the block means for the candidate *)
+Definition conform_b (k : fconstraint) : bool :=
+  match k with
+  | FSustain => sustain_held fb s
+  | _ => forallb (constraint_ok S0 s) (CodeSem.code_constraint fb k)
+  end.
+
 (** every constraint of the fragment *)
 Lemma f1_conform k : constraint_f2 fb k = true ->
-  constraint_conforms fb r k = ROk (forallb (constraint_ok S0 s) (CodeSem.code_constraint fb k)).
+  constraint_conforms fb r k = ROk (conform_b k).
 Proof.
-  intros Hk. destruct k; cbn [constraint_f2] in Hk; try discriminate; try reflexivity.
+  intros Hk. destruct k; cbn [constraint_f2] in Hk; try discriminate; try reflexivity; try apply f1_sustain; unfold conform_b.
   - (* AtMost *)
     apply andb_prop in Hk. destruct Hk as [Hk Hg]. apply andb_prop in Hk. destruct Hk as [Hf _]. apply (isact_In fb HF) in Hf.
     cbn [constraint_conforms CodeSem.code_constraint forallb]. rewrite andb_true_r.
@@ -238,8 +358,35 @@ Proof.
     apply andb_prop in Hk. destruct Hk as [Hf _]. apply (isact_In fb HF) in Hf. apply Nat.eqb_eq in Hsu.
     cbn [CodeSem.code_constraint forallb]. rewrite andb_true_r. rewrite Hsu. apply f1_pin; assumption.
   - (* Sequential *)
-    apply andb_prop in Hk. destruct Hk as [Hf Hnl]. apply (isact_In fb HF) in Hf. apply Nat.ltb_lt in Hnl.
+    apply andb_prop in Hk. destruct Hk as [Hk Hs1]. apply andb_prop in Hk. destruct Hk as [Hf Hnl].
+    apply (isact_In fb HF) in Hf. apply Nat.ltb_lt in Hnl. apply Nat.eqb_eq in Hs1.
     cbn [CodeSem.code_constraint forallb]. rewrite andb_true_r. apply f1_sequential; assumption.
+Qed.
+
+Lemma conform_b_all (cs : list fconstraint) :
+  forallb conform_b cs =
+  forallb (constraint_ok S0 s) (flat_map (CodeSem.code_constraint fb) cs) &&
+  (if existsb (fun k => match k with FSustain => true | _ => false end) cs then sustain_held fb s else true).
+Proof.
+  induction cs as [|k t IH]; [reflexivity|]. cbn [forallb flat_map existsb]. rewrite forallb_app, IH.
+  destruct k; cbn [conform_b CodeSem.code_constraint forallb orb andb];
+    try (destruct (forallb (constraint_ok S0 s) (flat_map (CodeSem.code_constraint fb) t));
+         destruct (existsb (fun k => match k with FSustain => true | _ => false end) t);
+         destruct (sustain_held fb s); repeat rewrite ?andb_true_r, ?andb_false_r; reflexivity);
+    try (rewrite <- !andb_assoc; reflexivity).
+Qed.
+
+(** whether or not a Sustain constraint is listed: the sustained factors are checked whenever there are any *)
+Lemma conform_b_constraints :
+  forallb conform_b (fl_constraints fb) = sustain_held fb s && forallb (constraint_ok S0 s) (s_constraints S0).
+Proof.
+  rewrite conform_b_all, (f0_sem_constraints fb HF).
+  destruct (existsb (fun k => match k with FSustain => true | _ => false end) (fl_constraints fb)) eqn:Ex.
+  - apply andb_comm.
+  - destruct (f0_sustain_checked fb (f0_unpack fb HF)) as [H1 | Hin].
+    + rewrite (f0_sustain_held_trivial fb HF s H1). rewrite andb_true_r. reflexivity.
+    + exfalso. assert (existsb (fun k => match k with FSustain => true | _ => false end) (fl_constraints fb) = true)
+        by (apply existsb_exists; exists FSustain; split; [exact Hin | reflexivity]). congruence.
 Qed.
 
 (** the constraint loop of the rejection test *)
@@ -248,34 +395,23 @@ Theorem f1_constraints_loop :
      match cs with
      | [] => ROk false
      | c0 :: t => ok <-- constraint_conforms fb r c0 ;;; if ok then go t else ROk true
-     end) (fl_constraints fb) = ROk (negb (forallb (constraint_ok S0 s) (s_constraints S0))).
+     end) (fl_constraints fb) = ROk (negb (sustain_held fb s && forallb (constraint_ok S0 s) (s_constraints S0))).
 Proof.
-  rewrite (f0_sem_constraints fb HF).
+  rewrite <- conform_b_constraints.
   pose proof (f0_constraints fb (f0_unpack fb HF)) as Hc.
   induction (fl_constraints fb) as [|k t IH]; [reflexivity|].
-  rewrite (f1_conform k (Hc k (or_introl eq_refl))). cbn [rbind flat_map]. rewrite forallb_app.
-  destruct (forallb (constraint_ok S0 s) (CodeSem.code_constraint fb k)); [|reflexivity].
+  rewrite (f1_conform k (Hc k (or_introl eq_refl))). cbn [rbind forallb].
+  destruct (conform_b k); [|reflexivity].
   cbn [andb]. apply IH. intros x Hx. apply Hc. right. exact Hx.
 Qed.
 
 (** the whole rejection test when there is one crossing only *)
 Theorem f1_violated (en : enumerator) : eb_has_cc (en_base en) = false -> length (fl_crossings fb) = 1 ->
-  are_constraints_violated fb en r = ROk (negb (forallb (constraint_ok S0 s) (s_constraints S0))).
+  are_constraints_violated fb en r = ROk (negb (sustain_held fb s && forallb (constraint_ok S0 s) (s_constraints S0))).
 Proof.
-  intros Hcc Hone. unfold are_constraints_violated. rewrite (f0_sem_constraints fb HF).
-  pose proof (f0_constraints fb (f0_unpack fb HF)) as Hc.
-  assert (H : (fix go (cs : list fconstraint) : rres bool :=
-                 match cs with
-                 | [] => ROk false
-                 | c0 :: t => ok <-- constraint_conforms fb r c0 ;;; if ok then go t else ROk true
-                 end) (fl_constraints fb) =
-              ROk (negb (forallb (constraint_ok S0 s) (flat_map (CodeSem.code_constraint fb) (fl_constraints fb))))).
-  { induction (fl_constraints fb) as [|k t IH]; [reflexivity|].
-    rewrite (f1_conform k (Hc k (or_introl eq_refl))). cbn [rbind flat_map]. rewrite forallb_app.
-    destruct (forallb (constraint_ok S0 s) (CodeSem.code_constraint fb k)); [|reflexivity].
-    cbn [andb]. apply IH. intros x Hx. apply Hc. right. exact Hx. }
-  rewrite H. cbn [rbind]. rewrite Hcc. rewrite Hone. cbn [Nat.ltb Nat.leb orb].
-  destruct (negb (forallb (constraint_ok S0 s) (flat_map (CodeSem.code_constraint fb) (fl_constraints fb)))); reflexivity.
+  intros Hcc Hone. unfold are_constraints_violated. rewrite f1_constraints_loop.
+  cbn [rbind]. rewrite Hcc. rewrite Hone. cbn [Nat.ltb Nat.leb orb].
+  destruct (negb (sustain_held fb s && forallb (constraint_ok S0 s) (s_constraints S0))); reflexivity.
 Qed.
 
 End F1C.
